@@ -9,4 +9,5 @@ import EqsigVerif.Lemmas.Peaks.Put
 import EqsigVerif.Lemmas.Peaks.Series
 import EqsigVerif.Lemmas.Peaks.Delta
 import EqsigVerif.Lemmas.Peaks.Pseudo
+import EqsigVerif.Lemmas.Peaks.NCyc
 /-! umbrella for the helper lemmas on `Model/Peaks.lean` (C11, C13) -/
